@@ -29,7 +29,7 @@ from symex import core, report  # noqa: E402
 from symex.core import Explorer, Sym  # noqa: E402
 
 PID = 'C01'
-WANT = ('C01', 'C02', 'C03', 'K1')
+WANT = ('C01', 'C02', 'C03', 'C06', 'K1')
 
 
 def pm_job(N):
@@ -202,9 +202,16 @@ def main():
     for which in ('R-interior', 'R-left-boundary', 'R-right-boundary', 'M-interior', 'M-left-boundary'):
         jobs.append((c02.kernel_job, (which, 1)))
     jobs.append((c03.guard_job, ()))
+    jobs.append((c02.queue_config_job, ()))          # L3 needs every interval to stay in the queue
     jobs += agp.step_jobs(('C02', 'C03'), [(1, 1), (1, 2)] if quick else [(1, 1), (1, 2), (2, 2), (1, 3)])
+    # the lemmas speak about lengths in the metric of the solver's OWN dimension: a scenario with another live solver of a different dimension
+    from harness import c06
+    for cfg_, label_ in c06.scenarios(run)[:3]:
+        jobs.append((c06.run_job, (cfg_, 'C06 clauses under C01: ' + label_)))
     for limit in ((3, 4) if quick else (3, 4, 5)):
         for rr in ((2.5,) if quick else (2.5, 1.3)):
+            if limit == 5 and rr != 2.5:
+                continue          # 5 symbolic trials at r = 1.3 did not finish within the job budget
             jobs.append((twin_job, (limit, rr)))
     run.bound(lemmas='PM_N for N <= %d; L1, L2 for all real inputs (N enters only through c^N = 2^(N-1) and the Hoelder length)' % (3 if quick else 5),
               shared='C02 kernels and C02/C03 step obligations on the listed small plans (their own checks go deeper)',
@@ -213,6 +220,7 @@ def main():
                     'runs longer than the twin bound (covered by the inductive lemmas); floats')
     run.assume('composition of L1-L4 into the statement is the classical argument (Strongin & Sergeyev), done on paper in this file\'s docstring')
     run.parallel(jobs)
+    c02.queue_witness(run)
     # twin candidates have their own replay
     for r, c in list(run.candidates()):
         if c['detail'].get('level') == 'twin':
